@@ -137,7 +137,8 @@ CHECKS['C08'] = dict(
          'document round-trips (rebuild_identity, doc_roundtrip), under the per-map hypotheses wfIds and noSiblingLoopIdPrefix (evaluated '
          'exhaustively over all shipped maps by the compiled model and independently in Python on every run). Tied to /repo by generated '
          'documents (markup characters, blanks, non-ASCII, 70+ delimiter triples): real XML parsed with xml.etree, nesting compared with '
-         'the matched nodes, converted back with the real xmlx12_simple and compared; event stream compared with the model. Text level '
+         'the matched nodes, converted back with the real xmlx12_simple and compared (values planted in not-used elements in front of '
+         'filled ones must not cost the rest of the segment); event stream compared with the model. Text level '
          '(Model/Convert = xmlx12_simple.convert feeding X12Writer): convertText_complete, text_roundtrip_generated (segments equal, trailers '
          'included), text_roundtrip_identity (canonical layout: identical text), text_roundtrip_repairs_counts; compared byte for byte with '
          'the real x12n_document + convert on 1 800 layout / delimiter / count variants (op CVTXT).',
@@ -156,8 +157,9 @@ CHECKS['C02'] = dict(
          'known findings. Counter theorems (NodeCounter = count per path with subtree reset). Tied to /repo by the walker differential (real '
          'walk_tree driven as x12n_document drives it vs the model, per segment, on generated documents and structural mutants of every '
          'map) and by the property oracle: generated conformant documents through the real x12n_document must give True, an empty error '
-         'tree and an accepting acknowledgement. Element-level acceptance is C15 (admissible_no_error).',
-    note=COMMON_NOTE + ' One interchange/group/set per generated document (multi-set documents under C05); conformance of element values is '
+         'tree and an accepting acknowledgement (per index entry: random documents, a two-group interchange, and interchanges holding two '
+         'groups of DIFFERENT maps - every pair of entries sharing GS08, both orders, plus sampled pairs). Element-level acceptance is C15 (admissible_no_error).',
+    note=COMMON_NOTE + ' Random documents hold one interchange, group and set; multi-set, two-group and two-map interchanges are built beside them (more shapes under C05); conformance of element values is '
          'generated by harness/gendoc.py and checked end to end on the real code, the element-level theorem lives in C15.',
     technique='Lean 4 proof (walker accepts every conformant derivation; per-map hypotheses by kernel evaluation on translated maps) + walker differential + end-to-end oracle',
     design='DESIGN.md §3 C02')
@@ -186,7 +188,7 @@ CHECKS['C05'] = dict(
          'tree refines a flat recount), doc_verdict_iff_no_report (verdict true iff every report is one the handler swallows - exactly finding '
          'D27, unrestricted form refuted on a witness), doc_ack_names_groups_and_sets, doc_ack_accepts_iff, doc_ack_totals (997). '
          'Tied to /repo by capturing the err_handler call sequence of the real validator on valid, faulty, multi-set, '
-         'multi-group and multi-interchange documents (4010 and 5010), replaying it through the model and comparing tree summary and '
+         'multi-group and multi-interchange documents (4010 and 5010; set control numbers also over-long, blank-padded, one digit), replaying it through the model and comparing tree summary and '
          'acknowledgement segments; the property oracle recounts verdict, AK5/AK9 codes and totals, addressing and itemisation on the real outputs.',
     note=COMMON_NOTE + ' Timestamps and generated control numbers are masked; list(set()) order is compared as a multiset.',
     technique='Lean 4 proof (error tree + acknowledgement model) + event-sequence differential + recount oracle on the real acknowledgement',
